@@ -52,6 +52,14 @@ C['C16'] = dict(level=MC, engine='E3', design='§2 C16',
    technique='CrossHair symbolic execution (z3) of PEP-316 harnesses over the real accessors: symbolic stored list, cutoff, flags, call count, caller mutation',
    text='Harness functions call the real Model.GetTimeSeries / TimeSeriesHolder.GenerateCSVtext / EquationSolver.GenerateCSVtext / BaseSolver.CreateCsvString with symbolic series (length<=4), cutoff (None/0..5, argument or attribute), suppression flag, series group, 1-3 calls and caller-side mutation; CrossHair must report Confirmed over all paths for each and refute each reachability twin.',
    note='Bounded by the stated sizes; Not confirmed / Unable to meet precondition are reported inconclusive. Counterexamples are replayed in plain Python before being reported.')
+C['C19'] = dict(level=MC, engine='E3', design='§2 C19',
+   technique='CrossHair symbolic execution (z3): symbolic name subsets for the header, symbolic ragged lengths / horizon for the rows',
+   text='Header harnesses choose a symbolic subset of four 6-name pools (all priority names, prefix/case-sharing others) and require one header naming each selected series once in priority-then-sorted order; row harnesses use symbolic ragged lengths 0..4 with position-coded cells under four formats, rendered twice; after a real solve with symbolic horizon 0..3 and exogenous length the table has exactly horizon+1 rows. Each must be Confirmed over all paths; reachability twins must be refuted.',
+   note='NOT claimed: the clause "parsing the text recovers every value to the format precision" (C printf realises symbolic values). Cell values are concrete position codes.')
+C['C10'] = dict(level=MC, engine='E3+E2', design='§2 C10',
+   technique='CrossHair symbolic execution (symbolic horizon, list length, float values, initial value) of loop-light blocks; symx symbolic execution of the unmodified SolveEquation with symbolic exogenous values for iterated/unreduced blocks',
+   text='CrossHair harnesses run the real ParseString/SetInitialConditions/SolveEquation with symbolic horizon (0..2/3), exogenous list (length<=4, float values), scalar, tuple, initial-condition value on endogenous/lagged/decorative variables, MaxTime line vs solver attribute, user time axis, and unevaluable values; E2 runs five block shapes (incl. constants, affine iteration, decorative, user time) with reduction on and off, exogenous values symbolic, sizes enumerated, and z3 shows on every path: lengths T+1, exogenous series verbatim, k=0 value, lag relation, time axis; too-short lists rejected.',
+   note='Model-level wrappers pass values through repr()/str(float()) text (realisation): covered by a concrete enumeration, reported separately in evidence. Steady-state initialisation is C15.')
 PENDING = {}
 ALL = ['C%02d' % i for i in range(1, 21)]
 checks = []
